@@ -196,3 +196,18 @@ From QV Require Import Crypto.EncWriter.
 Lemma leaves_encrypted_lemma : forall encrypt_metadata l,
   writer_encrypts encrypt_metadata l = iso_requires_encrypted encrypt_metadata l.
 Proof. intros em l. destruct l, em; reflexivity. Qed.
+
+(* rc4_prefix: RC4 is a stream cipher: the encryption of a prefix is the prefix of the encryption. (Lets the check run
+   the slow list-based model once on the longest buffer of the large-write pipeline tie.) *)
+Lemma rc4_stream_prefix : forall d n st x y, rc4_stream (firstn n d) st x y = firstn n (rc4_stream d st x y).
+Proof.
+  induction d as [|b t IH]; intros n st x y.
+  - rewrite firstn_nil. cbn [rc4_stream]. rewrite firstn_nil. reflexivity.
+  - destruct n as [|n]; [reflexivity|]. cbn [firstn rc4_stream]. rewrite IH. reflexivity.
+Qed.
+Lemma rc4_prefix_lemma : forall k d n, rc4 k (firstn n d) = firstn n (rc4 k d).
+Proof.
+  Local Transparent rc4.
+  intros k d n. unfold rc4. apply rc4_stream_prefix.
+  Local Opaque rc4.
+Qed.
